@@ -329,7 +329,19 @@ func ruleMultilineReader(c *Ctx) {
 						}
 						return true
 					})
-					if setsNormal {
+					// unconditional for every non-blank character: the only test between the default clause and the goto is the blank test
+					nIf, inElse := 0, false
+					for _, a2 := range enclosingStack(dc, br) {
+						if ifs, ok := a2.(*ast.IfStmt); ok {
+							nIf++
+							if ifs.Else != nil && containsNode(ifs.Else, br) {
+								if b, ok := unparen(ifs.Cond).(*ast.BinaryExpr); ok && (b.Op == token.LEQ || b.Op == token.LSS) && identOf(b.X) != nil && identOf(b.X).Name == "ch" {
+									inElse = true
+								}
+							}
+						}
+					}
+					if setsNormal && (nIf == 0 || nIf == 1 && inElse) {
 						redispatch = true
 					}
 				}
